@@ -19,6 +19,8 @@
 (*      back edge (general position)                                                                 *)
 (*   V9 the rings under construction are curves in the swept half-plane that do not cross: the pairs  *)
 (*      of positions of their two edges in the AEL are properly nested or disjoint, never interleaved *)
+(*   V10 a ring's left edge is its front edge iff an even number of hot edges lies to its left, i.e.  *)
+(*      iff the ring is an outer boundary there (the engine's orientation convention)                 *)
 (* Event Isects (hook H2): every intersection ProcessIntersectList processed during one Execute,  *)
 (*   <<e1.bot, e1.top, e2.bot, e2.top, pt, bottom y, top y of the scanbeam>> in processing order      *)
 (*   V6 in general position the sweep swaps exactly the pairs of input edges that properly cross,    *)
@@ -75,7 +77,9 @@ TAel ==
                            hi(r) == CHOOSE j \in of(r) : \A k \in of(r) : j >= k
                            bad9 == {pr \in (rings \ bad8) \X (rings \ bad8) : lo(pr[1]) < lo(pr[2]) /\ lo(pr[2]) < hi(pr[1]) /\ hi(pr[1]) < hi(pr[2])}
                        IN /\ Chk(bad8 = {} /\ \A j \in 1..n : (A[j][12] = 1) = (A[j][13] >= 0), "ENGINE", "V8_ring_not_held_by_front_and_back_edge", IF bad8 = {} THEN -1 ELSE CHOOSE r \in bad8 : TRUE)
-                          /\ Chk(bad9 = {}, "ENGINE", "V9_rings_under_construction_interleave", IF bad9 = {} THEN 0 ELSE CHOOSE pr \in bad9 : TRUE))
+                          /\ Chk(bad9 = {}, "ENGINE", "V9_rings_under_construction_interleave", IF bad9 = {} THEN 0 ELSE CHOOSE pr \in bad9 : TRUE)
+                          /\ LET bad10 == {r \in rings \ bad8 : (A[lo(r)][14] = 1) # (Cardinality({j \in hot : j < lo(r)}) % 2 = 0)}
+                             IN Chk(bad10 = {}, "ENGINE", "V10_front_edge_side_differs_from_nesting_parity", IF bad10 = {} THEN -1 ELSE CHOOSE r \in bad10 : TRUE))
 TIsects ==
   /\ Ev.e = "Isects"
   /\ UNCHANGED cs
